@@ -161,6 +161,7 @@ class Auer(PALAlgorithm):
         Discard the designs that are highly likely to be suboptimal using the confidence regions.
         """
         to_be_discarded = []
+        to_be_discarded_is = []
         for pt_i, pt in enumerate(self.S):
             pt_conf = self.design_space.confidence_regions[pt]
             pt_beta = self.beta_t[pt_i]
@@ -174,10 +175,13 @@ class Auer(PALAlgorithm):
                 beta = pt_beta + pt_p_beta
                 if np.all(self.small_m(pt_conf.center, pt_p_conf.center) > beta):
                     to_be_discarded.append(pt)
+                    to_be_discarded_is.append(pt_i)
                     break
 
         for pt in to_be_discarded:
             self.S.remove(pt)
+        # Keep the rows of beta_t aligned with the positions of the remaining designs in S.
+        self.beta_t = np.delete(self.beta_t, to_be_discarded_is, axis=0)
 
     def pareto_updating(self):
         """
